@@ -4,13 +4,12 @@ import ParolModel.Proofs.LRSim
 
 * `DTree` basics: induction principle, list forms of the traversals.
 * `dtree_yield`: a well-formed tree derives its frontier (`Yield`).
-* `dtree_rightmost`: the post-order production list of a well-formed tree, read backwards, is a
+* `dtree_rightmost_ctx`: the post-order production list of a well-formed tree, read backwards, is a
   rightmost derivation of the frontier from the root symbol.
 * `postNodes_events`: what `postNodes` (Model/TreeCheck.lean) reads off the event rendering of a tree;
   `treeCheck_dtree`: `treeCheck` accepts the rendering + post-order actions of every well-formed tree
   over the token sequence.
-* `TreeInv` / `lrStep_treeInv` / `lrRun_tree`: the invariant of `lrLoop` — the parse-tree stack is a
-  forest of well-formed trees whose post-order is the action trace so far. -/
+The invariant of `lrLoop` (`TreeInv`, `lrRun_tree`) is in Proofs/LRTreeRun.lean. -/
 namespace ParolModel
 
 namespace DTree
@@ -149,7 +148,7 @@ theorem RmDeriv.append {gprods : List Rule} {ps qs : List Nat} {α β γ : List 
 
 def prodSeq (ns : List ProdApp) : List Nat := ns.map (·.prod)
 
-/-- Forest form of `dtree_rightmost`, in an arbitrary left context `α` and terminal right context `w`. -/
+/-- Forest form of `dtree_rightmost_ctx`, in an arbitrary left context `α` and terminal right context `w`. -/
 theorem dforest_rightmost (gprods : List Rule) : ∀ (ks : List DTree),
     (∀ k ∈ ks, k.sig = true → ∀ (α : List Sym) (w : List Nat),
       RmDeriv gprods (prodSeq k.nodes).reverse (α ++ k.sym :: w.map Sym.t)
